@@ -12,6 +12,7 @@ plan op    {"op":"plan","backend":…,"n":N,"min":a,"opt":b,"layer":[c,…]}
            {"ok":{"kind":"einsum","cs":"aA,…->…","dims":[operand dims],"shape":[tensor shape],"factors":[[…],…]}} | {"err":…}
 chunks op  {"op":"chunks","len":k,"min":a,"opt":b} → {"ok":[[i,…],…]} | {"err":…}   (`_chunk_list(list(range(k)), a, b)`)
 wf op      {"op":"wf","n":N,"layer":[c,…]} → {"ok":true|false}
+items op   {"op":"items","layer":[c,…]} → {"ok":[[q],[q,q+1],…]}   (qubit lists of the item-by-item form, `itemQubits`)
 -/
 namespace QG.Driver
 open Lean QG.Model.Backend
@@ -121,7 +122,13 @@ def handleWf (j : Json) : Except String Json := do
   let layer ← symLayer (← getIntList (← j.getObjVal? "layer"))
   pure (jOk (Json.bool (wfBlocks Sym.dim layer && layer.length == n)))
 
+/-- {"op":"items","layer":[c,…]} → the qubit lists of the item-by-item form of the layer -/
+def handleItems (j : Json) : Except String Json := do
+  let layer ← symLayer (← getIntList (← j.getObjVal? "layer"))
+  pure (jOk (Json.arr ((itemQubits Sym.dim layer 0).map natsJ).toArray))
+
 def c01Handlers : List (String × (Json → Except String Json)) :=
-  [("value", handleValue), ("plan", handlePlan), ("chunks", handleChunks), ("wf", handleWf)]
+  [("value", handleValue), ("plan", handlePlan), ("chunks", handleChunks), ("wf", handleWf),
+   ("items", handleItems)]
 
 end QG.Driver
